@@ -90,21 +90,4 @@ pub fn internal_error<B>(msg: B) -> Status { unimplemented!() }
 #[verifier::external_body]
 pub fn failed_precondition<B>(msg: B) -> Status { unimplemented!() }
 
-// `.expect(..)` (R7): aborts unless a value is present
-pub trait VxExpect<T>: Sized {
-    spec fn vx_has(self, r: T) -> bool;
-    fn vx_expect(self) -> (r: T)
-        ensures self.vx_has(r);
-}
-impl<T> VxExpect<T> for Option<T> {
-    open spec fn vx_has(self, r: T) -> bool { self == Some(r) }
-    #[verifier::external_body]
-    fn vx_expect(self) -> (r: T) { unimplemented!() }
-}
-impl<T, E> VxExpect<T> for Result<T, E> {
-    open spec fn vx_has(self, r: T) -> bool { self == Ok::<T, E>(r) }
-    #[verifier::external_body]
-    fn vx_expect(self) -> (r: T) { unimplemented!() }
-}
-
 } // verus!
